@@ -1,5 +1,6 @@
 mod core;
 mod engines;
+mod ptrace;
 
 use std::path::PathBuf;
 
@@ -67,6 +68,22 @@ fn main() {
     let code = match cmd.as_str() {
         "check" => {
             let prop = args.pos.get(1).cloned().unwrap_or_else(|| usage());
+            if prop == "C15" {
+                let workers = args
+                    .opts
+                    .get("workers")
+                    .and_then(|s| s.parse().ok())
+                    .unwrap_or_else(|| std::thread::available_parallelism().map_or(8, |n| n.get() as u64));
+                let code = engines::crashsim::check_main(
+                    tier_of(&args),
+                    seed_of(&args),
+                    workers,
+                    !args.flags.iter().any(|f| f == "no-evidence"),
+                    args.opts.get("runs").and_then(|s| s.parse().ok()),
+                    args.opts.get("max-seconds").and_then(|s| s.parse().ok()),
+                );
+                std::process::exit(code);
+            }
             let Some(engine) = engines::for_property(&prop) else {
                 eprintln!("no engine serves property {prop}");
                 std::process::exit(2);
@@ -105,6 +122,16 @@ fn main() {
             runner::worker_main(engine.as_ref(), &w);
             0
         }
+        "crashworker" => {
+            let get = |k: &str| args.opts.get(k).cloned().unwrap_or_else(|| usage());
+            engines::crashsim::worker_main(
+                &PathBuf::from(get("base")),
+                get("start").parse().unwrap(),
+                get("stride").parse().unwrap(),
+                get("max-seconds").parse().unwrap(),
+            );
+            0
+        }
         "replay" => {
             let file = PathBuf::from(args.pos.get(1).cloned().unwrap_or_else(|| usage()));
             let text = std::fs::read_to_string(&file).unwrap_or_else(|e| {
@@ -116,6 +143,9 @@ fn main() {
                 std::process::exit(2);
             });
             let name = doc["engine"].as_str().unwrap_or("");
+            if name == "crashsim" {
+                std::process::exit(engines::crashsim::replay_main(&file, &doc));
+            }
             let engine = engines::by_name(name).unwrap_or_else(|| {
                 eprintln!("unknown engine {name}");
                 std::process::exit(2);
